@@ -212,7 +212,8 @@ def gen_case(rng, tier):
     has_laser = rng.random() < (0.35 if has_beam else 0.6)
     n_pm = int(rng.integers(0, 4)) if (has_beam or has_laser) else int(rng.integers(1, 4))
     pm = pick_models(rng, PMODELS, n_pm)
-    bm = pick_models(rng, BMODELS, int(rng.integers(1, 3))) if has_beam else []
+    # a beam may carry no emission model at all: its density is still observable (and must still follow every change)
+    bm = pick_models(rng, BMODELS, int(rng.integers(0, 3))) if has_beam else []
     need = {("deuterium", 1)}
     for _, req in pm + bm:
         need.update(req)
